@@ -12,6 +12,8 @@ import (
 const genRule = "gzip at a drawn position among logging/headers (alone, outermost, wrapped), level -1..9 and min_size written as YAML int or YAML float and loaded through yaml.v3, content_types from the README list / 'text/' / single prefixes / empty list / empty prefix; " +
 	"GET with Accept-Encoding from 27 spellings (absent, gzip, lists in both orders, irregular spacing, q-values incl. q=0, GZIP, *, x-gzip, gzipx, identity, empty, two header lines); backend Content-Type = prefix itself, with parameters, with a longer subtype, or a near miss (x-<prefix>, prefix inside a parameter, upper case, other types, absent); " +
 	"min_size from {0,1,64,1000,1024,2048,4096,200000}; 1-6 (thorough 1-12) exchanges per lab on one kept-alive connection; body length min_size-1, min_size, min_size+1, 0, min_size/2, +1000, x4, +32 KiB, +100 KiB (+1 MiB in thorough) as repeated text or pseudo-random bytes in <=4 writes; statuses 200,201,206,404,500,204,304; backend Content-Encoding none/gzip (real gzip)/br; " +
+	"about half of the backend responses carry further fields next to the body (headers.go): the fixed pair Cache-Control + Vary, or 1-4 drawn from Content-Disposition (attachment / inline / form-data x a pool of 40 file names - ASCII, ISO-8859-1, Latin Extended, Cyrillic, Greek, CJK, Arabic, Hebrew, Devanagari, emoji, path parts, quotes and separators, 300 characters - x spellings: quoted raw UTF-8, quoted ISO-8859-1 bytes, RFC 5987 filename*=UTF-8''.. / ISO-8859-1''.. / with language, ASCII fallback + filename* in both orders, token, empty, %00, unparsable), " +
+	"ETag (strong values from a small pool so that exchanges of one lab share them under the one request target, weak, empty, unquoted), Last-Modified, Cache-Control (incl. no-transform), Vary, Expires, Age, Content-Language, Content-Location, Content-Range, Accept-Ranges, Link, Set-Cookie, digests, Location, Retry-After, WWW-Authenticate, Allow, security / CORS / server / timing fields, non-ASCII custom values, a 0.25-4 KiB value - none of them is a condition of the statement, so none may change the round trip; " +
 	"the generator breaks 0 (40%), 1 (45%) or several (15%) eligibility conditions; oracle RT (round trip through the received framing and Content-Encoding), OI (compressed only if all conditions hold), ID (otherwise byte-identical incl. declared Content-Length); " +
 	"non-trivial = all eligibility conditions hold or exactly one fails"
 
@@ -33,6 +35,9 @@ func addFloors(sub *lab.SubCheck) {
 	sub.Floor("compressible", 0.25)
 	sub.Floor("incompressible", 0.25)
 	sub.Floor("bodiless-status", 0.03)
+	sub.Floor("companion-headers", 0.20)
+	sub.Floor("content-disposition", 0.08)
+	sub.Floor("filename-beyond-latin1", 0.015)
 	CompressedFloors(sub, 0.15, 0.04)
 	for lvl := -1; lvl <= 9; lvl++ {
 		sub.Floor(fmt.Sprintf("level%d", lvl), 0.03)
